@@ -432,8 +432,9 @@ def obligations(tier):
     # the retry budget END TO END: the real ThreadsExecutor entry on a real plan with only the worker pool replaced (harness/execwire.py)
     from harness import c07, execwire
 
-    for mode, dn, opt, n_o, n_d, n_p, mr in ([("threads", "chain-unequal", 0, 30, 40, 10, 1)] if tier == "quick" else [("threads", dn, o_, 40, 60, 12, 2) for dn in ("chain-unequal", "diamond") for o_ in (0, 1)]):
-        vs = c07.vars_(n_o, n_d, n_p) + [("par", 0, 2), ("batch", 0, 2), ("retries", 0, 3), ("kfail", 0, 4)]
+    # few schedules per option combination: the retry budget does not depend on the interleaving (that is amu[...]'s subject)
+    for mode, dn, opt, n_o, n_d, n_p, mr in ([("threads", "chain-unequal", 0, 30, 40, 4, 0)] if tier == "quick" else [("threads", dn, o_, 40, 60, 6, 1) for dn in ("chain-unequal", "diamond") for o_ in (0, 1)]):
+        vs = c07.vars_(n_o, n_d, n_p) + [("par", 0, 2), ("batch", 0, 1), ("retries", 0, 3), ("kfail", 0, 4)]
         obls.append(Obl(f"executor-retry-budget[{mode},{dn},optimize={opt}]", execwire.make(mode, dn, opt, n_o, n_d, n_p, mr), vs, setup=c07.setup,
                         functions=[crl.ThreadsExecutor._async_execute_dag, crl.threads_create_futures_func, crl.run_func_threads, cra.async_map_dag, cra.async_map_unordered],
                         wall_s=wall,
